@@ -344,7 +344,9 @@ impl Cnf {
                     .trim()
                     .parse()
                     .unwrap_or_else(|_| panic!("failed to parse literal {}", lit));
-                let neg = parsed <= 0;
+                // negation is written with a leading '-' ("0" is the positive literal of
+                // variable 0, "-0" its negation)
+                let neg = lit.trim().starts_with('-');
                 c.push(Literal::new(
                     VarLabel::new_usize(i64::abs(parsed) as usize),
                     !neg,
